@@ -9,7 +9,11 @@ import ALV.Spec.C15
                           ["delattr","a"],["delattr",null],["default"],["call"],["del","a"]], …}
   Answer: for the model and for the spec, the result of every step and the public view of the
   state after every step, restricted to the universe `keys` / `vals`.
-  Keys are strings, values integers (for `sd` the integer is the identity of a strategy function).
+  Keys are strings, values integers (the integer is the EQUALITY CLASS of the value / strategy: the
+  tie assigns equal-but-not-identical objects of one class; the model never looks at identity).
+  Rejected operations (an operand cannot be hashed):
+    mk: ["setu",keys]  ["setbk",before,after,v]  ["bad"]      sd: ["setref",deleted]  ["rej"]
+  "view": "all" | "last" | {"every": n}  — after which steps the state is reported (results always).
 -/
 namespace ALV.Driver.C15
 open ALV ALV.J ALV.C15
@@ -27,6 +31,7 @@ def jRes : Res K V → Json
   | .val v => Json.mkObj [("v", Json.int v)]
   | .keys t => Json.mkObj [("t", jKeys t)]
   | .num n => natToJson n
+  | .rejected => Json.mkObj [("err", Json.str "Rejected")]
 
 def jOptVal (o : Option V) : Json := jRes (Res.ofVal o)
 def jOptKeys (o : Option (List K)) : Json := jRes (Res.ofKeys o)
@@ -43,6 +48,9 @@ def parseOp (j : Json) : Except String (Op K V) := do
   | [Json.str "k2k", k] => pure (.key2keys (← getStr k))
   | [Json.str "v2k", v] => pure (.value2keys (← getInt v))
   | [Json.str "len"] => pure .len
+  | [Json.str "setu", ks] => pure (.setUnhashable (← getKeys ks))
+  | [Json.str "setbk", b, a, v] => pure (.setBadKey (← getKeys b) (← getKeys a) (← getInt v))
+  | [Json.str "bad"] => pure .badOperand
   | _ => throw s!"C15: bad mk op {j.compress}"
 
 def getAttrName (j : Json) : Except String (Option K) :=
@@ -63,6 +71,8 @@ def parseSOp (j : Json) : Except String (SOp K V) := do
   | [Json.str "default"] => pure .default
   | [Json.str "call"] => pure .call
   | [Json.str "len"] => pure .len
+  | [Json.str "setref", ks] => pure (.setRefused (← getKeys ks))
+  | [Json.str "rej"] => pure .rejected
   | _ => throw s!"C15: bad sd op {j.compress}"
 
 def jPairs {α β} (f : α → Json) (g : β → Json) (l : List (α × β)) : Json :=
@@ -93,17 +103,34 @@ def jAttrName : Option K → Json
   | none => Json.null
   | some k => Json.str k
 
-/-- `all = false`: the view is reported after the last step only -/
-def traceMK (all : Bool) (keys : List K) (vals : List V) (tuples : List (List K)) :
+/-- how much of the state is reported after a step: 0 nothing, 1 light (the items), 2 everything.
+    `every = 1`: everything after every step ("all");  `every = 0`: everything after the last step
+    ("last");  `every = n ≥ 2`: light after every step, everything after every n-th and the last.
+    A rejected operation is always followed by the full view. -/
+def viewLevel (every i : Nat) (last rejected : Bool) : Nat :=
+  if last || rejected || every == 1 || (every != 0 && (i + 1) % every == 0) then 2
+  else if every == 0 then 0 else 1
+
+def Op.isRejected : Op K V → Bool
+  | .setUnhashable _ | .setBadKey _ _ _ | .badOperand => true
+  | _ => false
+
+def SOp.isRejected : SOp K V → Bool
+  | .setRefused _ | .rejected => true
+  | _ => false
+
+def traceMK (every : Nat) (keys : List K) (vals : List V) (tuples : List (List K)) (i : Nat) :
     St K V → Log K V → List (Op K V) → List Json × List Json
   | _, _, [] => ([], [])
   | s, l, op :: ops =>
     let m := step s op
     let p := specStep l op
-    let t := traceMK all keys vals tuples m.1 p.1 ops
-    let v := all || ops.isEmpty
-    (Json.mkObj (("res", jRes m.2) :: (if v then viewModel m.1 keys vals tuples else [])) :: t.1,
-     Json.mkObj (("res", jRes p.2) :: (if v then viewSpec p.1 keys vals tuples else [])) :: t.2)
+    let t := traceMK every keys vals tuples (i + 1) m.1 p.1 ops
+    let v := viewLevel every i ops.isEmpty (Op.isRejected op)
+    (Json.mkObj (("res", jRes m.2) :: (if v == 2 then viewModel m.1 keys vals tuples
+        else if v == 1 then [("items", jPairs jKeys Json.int m.1.store)] else [])) :: t.1,
+     Json.mkObj (("res", jRes p.2) :: (if v == 2 then viewSpec p.1 keys vals tuples
+        else if v == 1 then [("items", jPairs jKeys Json.int (specItems p.1))] else [])) :: t.2)
 
 def viewSDModel (s : SD K V) (keys : List K) (vals : List V) (tuples : List (List K)) : List (String × Json) :=
   ("attrs", jPairs jAttrName Json.int s.attrs)
@@ -120,16 +147,22 @@ def viewSDSpec (g : SDSpec K V) (keys : List K) (vals : List V) (tuples : List (
           | some v => jRes (.val v) | none => jRes .attrError) keys)
     :: viewSpec g.log keys vals tuples
 
-def traceSD (all : Bool) (keys : List K) (vals : List V) (tuples : List (List K)) :
+def traceSD (every : Nat) (keys : List K) (vals : List V) (tuples : List (List K)) (i : Nat) :
     SD K V → SDSpec K V → List (SOp K V) → List Json × List Json
   | _, _, [] => ([], [])
   | s, g, op :: ops =>
     let m := sdStep s op
     let p := sdSpecStep g op
-    let t := traceSD all keys vals tuples m.1 p.1 ops
-    let v := all || ops.isEmpty
-    (Json.mkObj (("res", jRes m.2) :: (if v then viewSDModel m.1 keys vals tuples else [])) :: t.1,
-     Json.mkObj (("res", jRes p.2) :: (if v then viewSDSpec p.1 keys vals tuples else [])) :: t.2)
+    let t := traceSD every keys vals tuples (i + 1) m.1 p.1 ops
+    let v := viewLevel every i ops.isEmpty (SOp.isRejected op)
+    (Json.mkObj (("res", jRes m.2) :: (if v == 2 then viewSDModel m.1 keys vals tuples
+        else if v == 1 then [("items", jPairs jKeys Json.int m.1.mkd.store),
+                             ("attrs", jPairs jAttrName Json.int m.1.attrs),
+                             ("default", jRes (Res.ofDefault (sdDefault m.1)))] else [])) :: t.1,
+     Json.mkObj (("res", jRes p.2) :: (if v == 2 then viewSDSpec p.1 keys vals tuples
+        else if v == 1 then [("items", jPairs jKeys Json.int (specItems p.1.log)),
+                             ("attrs", jPairs Json.str Json.int p.1.attr),
+                             ("default", jRes (Res.ofDefault p.1.default))] else [])) :: t.2)
 
 def handle (entry : String) (j : Json) : Except String Json := do
   let keys ← getKeys (← field j "keys")
@@ -137,18 +170,20 @@ def handle (entry : String) (j : Json) : Except String Json := do
   let tuples ← match j.getObjVal? "tuples" with
     | some t => getList getKeys t
     | none => pure []
-  let all := match j.getObjVal? "view" with
-    | some (Json.str "last") => false
-    | _ => true
+  let every ← match j.getObjVal? "view" with
+    | some (Json.str "last") => pure 0
+    | some (Json.str "all") => pure 1
+    | none => pure 1
+    | some o => getNat (← field o "every")
   match entry with
   | "mk" =>
     let ops ← getList parseOp (← field j "ops")
-    let t := traceMK all keys vals tuples (St.empty) ([] : Log K V) ops
+    let t := traceMK every keys vals tuples 0 (St.empty) ([] : Log K V) ops
     let last := keys.map fun k => jOptVal (lastAssigned k ops none)
     pure <| Json.mkObj [("model", Json.arr t.1), ("spec", Json.arr t.2), ("last", Json.arr last)]
   | "sd" =>
     let ops ← getList parseSOp (← field j "ops")
-    let t := traceSD all keys vals tuples (SD.empty) ({} : SDSpec K V) ops
+    let t := traceSD every keys vals tuples 0 (SD.empty) ({} : SDSpec K V) ops
     pure <| Json.mkObj [("model", Json.arr t.1), ("spec", Json.arr t.2)]
   | _ => throw s!"C15: unknown entry {entry}"
 
